@@ -48,6 +48,16 @@ def make_cls(tables, base=vecint.VInterp):
 
         def user_call(self, pl, args, n):
             return sp.Function("f")(*[a for a in args if not isinstance(a, (sym.Opaque, sym.ClosureVal))])
+
+        def ev_MCall(self, n):
+            # the integrand is generic over ComplexField: `.real()` of a quantity built from its values drops a part (of a magnitude it is the identity:
+            # sympy knows re(|z|) = |z|); everywhere else `.real()` stays the by-value conversion it is for the real quantities of the drivers
+            if n["name"] in ("real", "to_real") and not n["args"]:
+                rv = self.deref(self.ev(n["recv"]))
+                if isinstance(rv, sp.Basic) and rv.atoms(sp.core.function.AppliedUndef):
+                    return sp.re(rv)
+                return rv
+            return base.ev_MCall(self, n)
     return Q
 
 
